@@ -223,8 +223,18 @@ def monitor(script):
                 hit("C15:connection-stuck", f"`{op[:70]}`: node {target} neither answered the next ping nor closed the connection")
             if out == "alive" and target is not None and target < len(sync) and sync[target] != "1":
                 hit("C15:connection-stuck", f"`{op[:70]}`: node {target} kept the connection but is out of sync")
+        if verb == "stallstop" and not skip:
+            st = o.get("sendtx")
+            if st == "panic":
+                hit("C15:parked-sender-hit-by-close",
+                    f"`{op[:70]}`: a NodeManager.SendTx parked on the full outgoing queue of a stalled peer panicked (send on closed "
+                    "channel) when the node was stopped: nothing recovers a panic in the caller's goroutine, the process would end")
+            elif st != "ok":
+                hit("C15:parked-sender-never-released", f"`{op[:70]}`: SendTx parked on the stalled peer's queue did not return after the node was stopped ({st})")
+            if o.get("run") != "returned":
+                hit("C15:run-not-returned", f"`{op[:70]}`: the stalled node was stopped but its Run did not return ({o.get('run')})")
         for j in range(min(len(prev_sync), len(sync))):
-            if j == target and verb in ("hostile", "stop", "drop", "verify"):
+            if j == target and verb in ("hostile", "stop", "drop", "verify", "stallstop"):
                 continue
             if j in closed_now:
                 continue
